@@ -1,5 +1,34 @@
+"""C03: the run result is the one the workflow's declarative meaning prescribes."""
+import itertools
+
 import family
+import gen
+from check_c01 import okoc
+from vlib import lit, ref, tmap
+
+
+def staggered_output_failures(ctx):
+    """several declared outputs that become impossible at different moments while one stays producible until the
+    slowest step has finished: an output fed by two steps loses its dependencies one after the other, another output
+    loses its only dependency in between.  Whatever the order of these losses, the producible output is returned."""
+    def f(rng):
+        items = []
+        delays = [(0, 40, 80, 300), (80, 40, 0, 200), (0, 0, 0, 60), (40, 0, 80, 150)]
+        if not ctx.quick:
+            delays += list(itertools.permutations((0, 30, 60, 200)))[:12]
+        for da, db, dc, dd in (delays[:3] if ctx.quick else delays):
+            steps = {s: {'kind': 'plugin', 'pstep': 'work', 'fields': {'input': tmap({'id': lit(s)})}} for s in 'abcd'}
+            wf = {'steps': steps,
+                  'outputs': {'success': tmap({s: ref('steps.%s.outputs.success.tok' % s) for s in 'abcd'}),
+                              'interrupted_ac': tmap({'a': ref('steps.a.outputs.alt.tok'), 'c': ref('steps.c.outputs.alt.tok')}),
+                              'interrupted_b': tmap({'b': ref('steps.b.outputs.alt.tok')}),
+                              'failed_d': tmap({'d': ref('steps.d.outputs.error.reason'), 'a': ref('steps.a.outputs.error.reason')})}}
+            script = {s: {'exec': {'out': 'success', 'delay_ms': d}} for s, d in zip('abcd', (da, db, dc, dd))}
+            items.append({'wf': wf, 'oc': {s: okoc() for s in 'abcd'}, 'script': script, 'input': {'x': 'x', 'n': 1, 'flag': True},
+                          'schedule': None, 'want': ['success'], 'at': 'staggered %d/%d/%d/%d' % (da, db, dc, dd)})
+        return items
+    return f
 
 
 def run(ctx):
-    family.run_family_check(ctx, 'C03', n_quick=40, n_thorough=400)
+    family.run_family_check(ctx, 'C03', n_quick=40, n_thorough=400, extra_items=staggered_output_failures(ctx))
